@@ -48,6 +48,10 @@ TargetFile(f, r) == IF r.path = <<>> THEN f
                     ELSE Norm(<<>>, Dir(f) \o r.path)
 
 IsConcrete(c) == "id" \in DOMAIN c
+(* A slot whose content is BROKEN ([id, ch = <<>>, broken]) stands for `null` written where an object of the kind MUST be: the   *)
+(* document that holds it cannot be loaded, so no reference into that file designates anything -- loading has to fail.           *)
+IsBroken(c) == "broken" \in DOMAIN c
+FileBroken(u, f) == \E i \in DOMAIN u.slots : u.slots[i].file = f /\ IsBroken(u.slots[i].c)
 
 SlotAt(u, f, kind, name) ==
    LET S == {i \in DOMAIN u.slots : u.slots[i].file = f /\ u.slots[i].kind = kind /\ u.slots[i].name = name}
@@ -83,7 +87,8 @@ FragKind(r, kind) == IF r.frag = <<>> THEN kind ELSE IF r.frag[1] = "#def" THEN 
 FragName(r) == IF r.frag = <<>> THEN "" ELSE IF r.frag[1] = "#def" THEN DefName(r.frag[3]) ELSE r.frag[2]
 
 Follow(u, f, r, kind, seen) ==
-   IF IsInlFrag(r)
+   IF TargetFile(f, r) # f /\ FileBroken(u, TargetFile(f, r)) THEN [fail |-> "brokenfile"]
+   ELSE IF IsInlFrag(r)
    THEN \* a JSON pointer to an inline object: the object at that site of the (concrete) slot the pointer goes through
         LET tf == TargetFile(f, r)  i == InlSlot(u, tf, r, kind) IN
         IF i = 0 \/ ~IsConcrete(u.slots[i].c) \/ InlAt(u.slots[i].c, InlSite(r)) = "" THEN [fail |-> "dangling"]
@@ -160,7 +165,10 @@ CompSiteKey(ck, site) == CASE site = "properties" -> "properties/p"
                            [] site = "headers" -> "headers/H"
                            [] site = "links" -> "links/L"
                            [] OTHER -> site
-RefText(r) == JoinSlash(r.path) \o (IF r.frag = <<>> THEN ""
+(* a path segment of a reference is part of a URI: a literal "%" is written %25 and a space %20 *)
+EscSeg(sg) == CASE sg = "pet%20v2.json" -> "pet%2520v2.json" [] sg = "pet v2.json" -> "pet%20v2.json"
+                [] sg = "%2e%2e" -> "%252e%252e" [] OTHER -> sg
+RefText(r) == JoinSlash([i \in DOMAIN r.path |-> EscSeg(r.path[i])]) \o (IF r.frag = <<>> THEN ""
                                    ELSE IF r.frag[1] = "#inl" THEN "#/" \o SiteKey(r.frag[2])
                                    ELSE IF r.frag[1] = "#pathinl" THEN "#/paths/~1" \o EscName(r.frag[2]) \o "/" \o PathSiteKey(r.frag[3])
                                    ELSE IF r.frag[1] = "#compinl" THEN "#/components/" \o r.frag[2] \o "/" \o EscName(r.frag[3]) \o "/" \o CompSiteKey(r.frag[2], r.frag[4])
